@@ -179,7 +179,7 @@ def run(F, R):
     R.rule("C08-R4", "each context key has one typed writer and one typed reader with paired units; Context::load is awaited before the state machine exists")
     ku = keys.key_users(W, c)
     table = {
-        "last_update_time": ("set_option_int", "?and_then(param1.0.schedule.last_update_time, time::PartialComplexTime::checked_to_micros_since_epoch)", "get_time"),
+        "last_update_time": ("set_option_int", "?checked_to_micros_since_epoch(param1.0.schedule.last_update_time@Some.0)|None", "get_time"),
         "consecutive_failed_update_checks": ("set_option_int", "None|Some{param1.0.state.consecutive_failed_update_checks}", "get_int"),
     }
     for key, (wname, wval, rname) in table.items():
@@ -193,7 +193,9 @@ def run(F, R):
                 vt_ = k_["bv"].trace_op(k_["t"]["args"][2]) if len(k_["t"].get("args", [])) > 2 else None
                 d_ = optnorm.option_desc(W, k_["bv"], vt_) if vt_ is not None else k_["value"]
                 # a lossless widening written `x as i64` or `i64::from(x)` is the same value
-                wvals.append(d_.replace("cast<IntToInt>(param1.0.state.consecutive_failed_update_checks)", "param1.0.state.consecutive_failed_update_checks"))
+                for sp_ in ("cast<IntToInt>(%s)", "from(%s)", "into(%s)"):
+                    d_ = d_.replace(sp_ % "param1.0.state.consecutive_failed_update_checks", "param1.0.state.consecutive_failed_update_checks")
+                wvals.append(d_)
             R.check("C08-R4", "writer:" + key, len(wr) == 1 and wr[0]["name"] == wname and wvals[0] == wval and _in_fn_bv(W, wr[0]["bv"], "persist", "update_check::Context"),
                     "%s(%s)" % (wname, wval), "key %s is written by %s" % (key, [(k["name"], v_, k["loc"]) for k, v_ in zip(wr, wvals)]))
             R.check("C08-R4", "reader:" + key, len(rd) == 1 and rd[0]["name"] == rname and _in_fn_bv(W, rd[0]["bv"], "load", "update_check::Context"), rname, "key %s is read by %s" % (key, [(k["name"], k["loc"]) for k in rd]))
@@ -202,12 +204,36 @@ def run(F, R):
     if R.floor("C08-R4", "Context::persist body", len(pb), 1):
         pv = BV.of(pb[0])
         ok = False
+        FCN = "consecutive_failed_update_checks"
+
+        def _zt(t):
+            t = strip(t)
+            return t[0] == "binop" and t[1] in ("Eq", "Ne") and FCN in fmt_t(t[2]) and lib.term_const(c, t[3]) == 0
+        # if/else spelling, either polarity: the Some(counter) construction sits on the non-zero side of the test
+        somes = [bi for bi in sorted(pv.reach0) for s_ in pv.blocks[bi]["s"] if s_["k"] == "assign" and s_["r"]["k"] == "agg" and s_["r"].get("vn") == "Some" and ("." + FCN) in fmt_t(pv._trace_rv(s_["r"], None, 0))]
+        nz = []
         for bi in sorted(pv.reach0):
             si = guards.switch_info(pv, bi)
-            if si and si.kind == "bool":
-                t = strip(si.term)
-                if t[0] == "binop" and t[1] == "Eq" and "consecutive_failed_update_checks" in fmt_t(t[2]) and lib.term_const(c, t[3]) == 0:
-                    ok = True
+            if si and si.kind == "bool" and _zt(si.term):
+                ne = strip(si.term)[1] == "Ne"
+                nz += [(a, b) for (a, b, tr) in pv.bool_edges(_zt) if a == bi and tr == ne]
+        if nz and somes and all(pv.dominated_by_edge(bi, nz) for bi in somes):
+            ok = True
+        # combinator spellings: Some(counter).filter(|c| c != 0) / (counter != 0).then(..)
+        for k_ in ku:
+            if k_["key_val"] == FCN and k_["name"].startswith("set") and len(k_["t"].get("args", [])) > 2:
+                for x in walk(k_["bv"].trace_op(k_["t"]["args"][2])):
+                    if x[0] == "call" and lib.norm(x[1]).endswith("Option::<T>::filter") and len(x[2]) == 2:
+                        clo = [y for y in walk(x[2][1]) if y[0] == "agg" and y[1] == "closure"]
+                        if clo and clo[0][2] in W.by_id:
+                            body = strip(W.bv(clo[0][2]).trace_local(0))
+                            if body[0] == "binop" and body[1] == "Ne" and lib.term_const(c, body[3]) == 0 and strip(body[2])[0] in ("param", "deref", "field"):
+                                ok = True
+                    if x[0] == "call" and lib.norm(x[1]).endswith("bool>::then") or x[0] == "call" and lib.norm(x[1]).endswith("bool>::then_some"):
+                        cnd = strip(x[2][0])
+                        if cnd[0] == "binop" and cnd[1] == "Ne" and FCN in fmt_t(cnd[2]) and lib.term_const(c, cnd[3]) == 0:
+                            ok = True
+        for bi in sorted(pv.reach0):
             tt_ = pv.blocks[bi]["t"]
             if tt_["k"] == "switch" and pv.switch_subject(bi) is None and pv.crate.types[tt_["ot"]]["s"] != "bool":
                 # `match count { 0 => None, n => Some(..) }`: an integer switch with an arm for 0
